@@ -8,13 +8,14 @@
    proved: that every
    paragraph rendering is free of empty lines (proved for encoded formatted values only; given
    that, the rendering is proved to split back into exactly as many paragraphs), and the
-   composition into whole documents: render . parse . render = render, equality of the
-   dictionary forms after a render-parse cycle; decided by co-execution and by the executable
-   statement.  Proved at paragraph level: from_dict(to_dict(p)).to_dict() = to_dict(p) given the
-   per-field stability above). *)
+   objects built from DEP-5 grammar documents meet the renderability conditions of the document
+   theorem, and render . parse . render = render; decided by co-execution and by the executable
+   statement.  Proved: from_dict(to_dict(p)).to_dict() = to_dict(p) given the per-field stability
+   above, and - for objects meeting the stated conditions - that the rendering parses back to an
+   object with the same paragraph types and dictionary forms). *)
 From Coq Require Import String.
 From Coq Require Import NArith List Bool.
-From DI Require Import Result PyStr PyStrFacts Codec CodecFacts Deb822 Debcon Copyright Grammar822 Grammar822Facts WordFacts ConserveFacts RenderFacts FromDictFacts.
+From DI Require Import Result PyStr PyStrFacts Codec CodecFacts Deb822 Debcon Copyright Grammar822 Grammar822Facts WordFacts ConserveFacts RenderFacts FromDictFacts RoundTripFacts.
 Import ListNotations.
 Open Scope N_scope.
 
@@ -93,6 +94,43 @@ Theorem C13_from_dict_reproduces_to_dict : forall t known extra lines,
   para_to_dict (para_from_dict t (para_to_dict p)) = para_to_dict p.
 Proof. exact from_dict_to_dict. Qed.
 Print Assumptions C13_from_dict_reproduces_to_dict.
+
+(* whole documents: the rendering of an object parses back to an object with the same paragraph
+   types and the same dictionary forms.  spec_ok (Proofs/RoundTripFacts.v) bundles what the proof
+   needs of each paragraph: it is typed header, files or license; its extra names are distinct,
+   unknown to its type and free of hyphens; every non-blank value of its dictionary form is
+   renderable (a trimmed non-empty first line, then indented non-blank continuation lines without
+   trailing blanks, no carriage return), a blank value is empty; the rendered names parse back to
+   the keys; each typed value is stable under parse-after-render (theorems above); the rendering
+   is the general one (the paragraph is not empty) and its names select its own type.  NOT proved:
+   that every object built from a document of the DEP-5 grammar satisfies spec_ok (decided by
+   co-execution and by the executable statement on generated documents). *)
+Theorem C13_render_parse_same_dictionary_form : forall specs, specs <> [] -> Forall spec_ok specs ->
+  exists ps', from_text (doc_dumps (map build specs)) = Ok ps' /\
+    Forall2 (fun p p' => p_type p' = p_type p /\ para_to_dict p' = para_to_dict p) (map build specs) ps'.
+Proof. exact doc_roundtrip. Qed.
+Print Assumptions C13_render_parse_same_dictionary_form.
+
+(* the hypotheses are satisfiable *)
+Definition C13_ex_spec : spec := mkSpec PLicense [(lit "license", lit "MIT")] [] [].
+Example C13_ex_spec_ok : spec_ok C13_ex_spec.
+Proof.
+  assert (Elive : live_items PLicense [(lit "license", lit "MIT")] [] = [(lit "license", lit "MIT")]) by (vm_compute; reflexivity).
+  unfold spec_ok, C13_ex_spec. cbn [s_type s_known s_extra s_lines]. split; [|split; [discriminate|split; [vm_compute; reflexivity|]]].
+  - constructor.
+    + split; [constructor|intros k []].
+    + constructor.
+    + vm_compute. constructor; [intros H; discriminate H|]. constructor; [intros _; reflexivity|constructor].
+    + rewrite Elive. constructor; [|constructor]. split; [|split].
+      * unfold renderable. split; [vm_compute; discriminate|]. split; [vm_compute; reflexivity|]. split.
+        -- intros H. vm_compute in H. repeat (destruct H as [H|H]; [discriminate H|]). contradiction.
+        -- vm_compute. constructor.
+      * vm_compute. split; [reflexivity|]. repeat (constructor; [left; reflexivity|]). constructor.
+      * vm_compute. reflexivity.
+    + rewrite Elive. discriminate.
+    + repeat (constructor; [vm_compute; reflexivity|]). constructor.
+  - intros n. unfold srendered. cbn [s_type s_known s_extra]. unfold rendered. rewrite Elive. reflexivity.
+Qed.
 
 (* a rendering whose paragraph renderings hold no empty line (and start and end with a character
    that is not a line feed) splits back into exactly those renderings: the same number of
